@@ -137,7 +137,7 @@ type Set struct {
 }
 
 type Stmt struct {
-	K      string  `json:"k"` // insert update
+	K      string  `json:"k"` // insert update upsert (INSERT one row ... ON DUPLICATE KEY UPDATE sets)
 	Ignore bool    `json:"ign,omitempty"`
 	Cols   []int   `json:"cols,omitempty"` // insert: the listed columns (others omitted)
 	Rows   [][]Raw `json:"rows,omitempty"` // values for Cols
@@ -156,8 +156,8 @@ func (s Stmt) sql() string {
 	if s.Ignore {
 		ign = " IGNORE"
 	}
-	if s.K == "insert" {
-		var cn, rows []string
+	var cn, rows []string
+	if s.K == "insert" || s.K == "upsert" {
 		for _, i := range s.Cols {
 			cn = append(cn, fmt.Sprintf("c%d", i))
 		}
@@ -168,7 +168,9 @@ func (s Stmt) sql() string {
 			}
 			rows = append(rows, "("+strings.Join(vs, ", ")+")")
 		}
-		return fmt.Sprintf("INSERT%s INTO t (%s) VALUES %s", ign, strings.Join(cn, ", "), strings.Join(rows, ", "))
+		if s.K == "insert" {
+			return fmt.Sprintf("INSERT%s INTO t (%s) VALUES %s", ign, strings.Join(cn, ", "), strings.Join(rows, ", "))
+		}
 	}
 	var sets []string
 	for _, st := range s.Sets {
@@ -180,6 +182,9 @@ func (s Stmt) sql() string {
 		}
 		sets = append(sets, fmt.Sprintf("c%d = %s", st.I, rhs))
 	}
+	if s.K == "upsert" {
+		return fmt.Sprintf("INSERT INTO t (%s) VALUES %s ON DUPLICATE KEY UPDATE %s", strings.Join(cn, ", "), strings.Join(rows, ", "), strings.Join(sets, ", "))
+	}
 	q := fmt.Sprintf("UPDATE%s t SET %s", ign, strings.Join(sets, ", "))
 	if s.Where != nil {
 		q += fmt.Sprintf(" WHERE c0 = %d", *s.Where)
@@ -188,8 +193,8 @@ func (s Stmt) sql() string {
 }
 
 func (s Stmt) coq(ncols int) string {
-	if s.K == "insert" {
-		var rows []string
+	var rows []string
+	if s.K == "insert" || s.K == "upsert" {
 		for _, r := range s.Rows {
 			full := make([]string, ncols)
 			for i := range full {
@@ -200,7 +205,9 @@ func (s Stmt) coq(ncols int) string {
 			}
 			rows = append(rows, lib.CoqList(full))
 		}
-		return fmt.Sprintf("Insert %s %s", lib.CoqBool(s.Ignore), lib.CoqList(rows))
+		if s.K == "insert" {
+			return fmt.Sprintf("Insert %s %s", lib.CoqBool(s.Ignore), lib.CoqList(rows))
+		}
 	}
 	var sets []string
 	for _, st := range s.Sets {
@@ -211,6 +218,9 @@ func (s Stmt) coq(ncols int) string {
 			rhs = "UTerm " + st.T.coq()
 		}
 		sets = append(sets, fmt.Sprintf("(%d%%nat, %s)", st.I, rhs))
+	}
+	if s.K == "upsert" {
+		return fmt.Sprintf("Upsert %s %s", rows[0], lib.CoqList(sets))
 	}
 	wh := "None"
 	if s.Where != nil {
@@ -270,6 +280,15 @@ func gen(r *lib.RNG) caseT {
 		default:
 			e = add(col(base()), col(base()))
 		}
+		if i > 0 && r.Chance(1, 2) {
+			// a generated column over the previous generated column
+			prev := col(len(c.Cols) - 1)
+			if r.Chance(1, 2) {
+				e = mul(prev, lit(2))
+			} else {
+				e = add(prev, col(base()))
+			}
+		}
 		c.Cols = append(c.Cols, Col{Gen: e})
 	}
 	n := len(c.Cols)
@@ -296,7 +315,35 @@ func gen(r *lib.RNG) caseT {
 	}
 	nextID := int64(1)
 	for i, ns := 0, r.Range(5, 11); i < ns; i++ {
-		if r.Chance(7, 10) || nextID == 1 {
+		if nextID > 1 && r.Chance(1, 6) {
+			// INSERT ... ON DUPLICATE KEY UPDATE on an id that usually exists
+			s := Stmt{K: "upsert", Cols: []int{0}}
+			for j := 1; j <= nb; j++ {
+				s.Cols = append(s.Cols, j)
+			}
+			id := int64(r.Range(1, int(nextID)))
+			if id == nextID {
+				nextID++
+			}
+			row := []Raw{{K: "int", Z: id}}
+			for range s.Cols[1:] {
+				row = append(row, Raw{K: "int", Z: int64(r.Range(-3, 15))})
+			}
+			s.Rows = [][]Raw{row}
+			for k, nk := 0, r.Range(1, 2); k < nk; k++ {
+				st := Set{I: base()}
+				switch r.Intn(3) {
+				case 0:
+					st.Raw = &Raw{K: "int", Z: int64(r.Range(-3, 15))}
+				case 1:
+					st.T = add(col(base()), lit(int64(r.Range(1, 4))))
+				default:
+					st.T = mul(col(base()), lit(2))
+				}
+				s.Sets = append(s.Sets, st)
+			}
+			c.H = append(c.H, s)
+		} else if r.Chance(7, 10) || nextID == 1 {
 			s := Stmt{K: "insert", Ignore: r.Chance(1, 4), Cols: []int{0}}
 			for j := 1; j <= nb; j++ {
 				if r.Chance(3, 4) {
@@ -379,13 +426,16 @@ func errKind(err error) string {
 		return "ECheck"
 	case eng.ErrKind(err) == "not-null", strings.Contains(m, "doesn't have a default value"):
 		return "ENotNull"
-	case strings.Contains(m, "is not a valid value"):
+	case strings.Contains(m, "is not a valid value"), strings.Contains(m, "invalid type"):
 		return "EInvalid"
 	}
 	return "other"
 }
 
 func (s Stmt) shape(cols []Col) string {
+	if s.K == "upsert" {
+		return "upsert"
+	}
 	if s.K == "insert" {
 		for _, r := range s.Rows {
 			for _, v := range r {
@@ -627,6 +677,18 @@ func main() {
 					{K: "update", Sets: []Set{{I: 2, Raw: &Raw{K: "int", Z: 2}}, {I: 1, T: add(col(2), lit(10))}}, Where: iptr(1)},
 					{K: "update", Sets: []Set{{I: 1, T: add(col(1), lit(-8))}}}}},
 		}
+		corpus = append(corpus,
+			// generated column over a generated column: c3 = c2 * 2 must follow c1 through UPDATE and ON DUPLICATE KEY UPDATE;
+			// CHECK over a stored generated column: UPDATE c1 = 150 must be rejected
+			caseT{Cols: []Col{{NotNull: true}, {}, {Gen: add(col(1), lit(1))}, {Gen: mul(col(2), lit(2))}}, Checks: []Check{{Op: "Lt", L: col(2), R: lit(100)}},
+				H: []Stmt{{K: "insert", Cols: []int{0, 1}, Rows: [][]Raw{{{K: "int", Z: 1}, {K: "int", Z: 5}}, {{K: "int", Z: 2}, {K: "null"}}}},
+					{K: "update", Sets: []Set{{I: 1, Raw: &Raw{K: "int", Z: 7}}}, Where: iptr(1)},
+					{K: "update", Sets: []Set{{I: 1, Raw: &Raw{K: "int", Z: 150}}}, Where: iptr(1)},
+					{K: "upsert", Cols: []int{0, 1}, Rows: [][]Raw{{{K: "int", Z: 1}, {K: "int", Z: 9}}}, Sets: []Set{{I: 1, Raw: &Raw{K: "int", Z: 20}}}},
+					{K: "upsert", Cols: []int{0, 1}, Rows: [][]Raw{{{K: "int", Z: 1}, {K: "int", Z: 9}}}, Sets: []Set{{I: 1, Raw: &Raw{K: "int", Z: 150}}}},
+					{K: "upsert", Cols: []int{0, 1}, Rows: [][]Raw{{{K: "int", Z: 3}, {K: "int", Z: 9}}}, Sets: []Set{{I: 1, Raw: &Raw{K: "int", Z: 1}}}},
+					{K: "upsert", Cols: []int{0, 1}, Rows: [][]Raw{{{K: "int", Z: 2}, {K: "int", Z: 9}}}, Sets: []Set{{I: 1, T: add(col(1), lit(1))}}},
+					{K: "update", Sets: []Set{{I: 1, T: add(col(1), lit(40))}}}}})
 		for _, cs := range corpus {
 			run(c, cs)
 		}
